@@ -3,13 +3,16 @@
  * tree through the public accessors only.
  *
  * op lines:
- *   d <hex>      parse the document with options 0..3; output "r0 | r1 | r2 | r3" where
+ *   d <hex>      parse the document with options 0..3 (json_set_options) and on a context that
+ *                never saw json_set_options (documented default = strict, UTF-8 validated);
+ *                output "r0 | r1 | r2 | r3 | rdefault" where
  *                r = "ok <dump>" or "err <class>" (or "pooldiff …" when the result depends
  *                on the pool's initial size)
  *   s <hex> ...  the documents parsed one after the other on ONE JsonContext per option set
  *                (json_parse resets the parser itself; a context is reused after successes and
  *                after failures); output "a0 ; b0 ; ... | a1 ; b1 ; ... | ..." (one group per
- *                option set); every result is dumped before the next parse
+ *                option set, and a fifth group: default context -> parse -> json_set_options(i % 4)
+ *                -> parse -> ...); every result is dumped before the next parse
  *   f <hex>      strtod on the NUL-terminated token: "<bits hex> <consumed>"
  *   #case        echo
  * `h --time` prints wall-clock parse times for the linear-time clause.
@@ -129,6 +132,9 @@ static const char *err_class(const char *msg)
 	return "?unknown";
 }
 
+/* fifth "option set": json_set_options is never called on the fresh context */
+#define NOSET 4u
+
 /* one parse; result text appended to ob */
 static void parse_once(const uint8_t *doc, size_t len, unsigned opts, size_t pool)
 {
@@ -136,7 +142,8 @@ static void parse_once(const uint8_t *doc, size_t len, unsigned opts, size_t poo
 	struct JsonValue *v;
 	uint8_t *copy;
 	if (!ctx) { ob_puts("noctx"); return; }
-	json_set_options(ctx, opts);
+	if (opts < NOSET)            /* NOSET: straight from json_new_context, the documented default */
+		json_set_options(ctx, opts);
 	copy = malloc(len ? len : 1);          /* exact size: any read at copy[len] is reported */
 	memcpy(copy, doc, len);
 	v = json_parse(ctx, (const char *)copy, len);
@@ -162,7 +169,7 @@ static void op_d(const char *hex)
 	int p;
 	char *first = NULL;
 	if (len < 0) { puts("bad-op"); return; }
-	for (opts = 0; opts < 4; opts++) {
+	for (opts = 0; opts <= NOSET; opts++) {
 		bool diff = false;
 		for (p = 0; p < 4; p++) {
 			ob_reset();
@@ -215,15 +222,20 @@ static void op_s(char **hex, int n)
 		len[i] = hc_unhex(hex[i], &doc[i]);
 		if (len[i] < 0) { while (i--) free(doc[i]); puts("bad-op"); return; }
 	}
-	for (opts = 0; opts < 4; opts++) {
+	for (opts = 0; opts <= NOSET; opts++) {
 		bool diff = false;
 		for (p = 0; p < 4; p++) {
 			struct JsonContext *ctx = json_new_context(NULL, POOLS[p]);
 			ob_reset();
 			ob_put("", 0);
-			json_set_options(ctx, opts);
+			if (opts < NOSET)
+				json_set_options(ctx, opts);
 			for (i = 0; i < n; i++) {
 				if (i) ob_puts(" ; ");
+				/* fifth group: default context for the first document, then the
+				 * options are changed before every further parse */
+				if (opts == NOSET && i > 0)
+					json_set_options(ctx, (unsigned)i % 4);
 				parse_on(ctx, doc[i], len[i]);
 			}
 			json_free_context(ctx);
